@@ -1376,16 +1376,17 @@ func (r *Regex) Split(s string, n int) []string {
 			break
 		}
 
-		// Add substring before match
-		result = append(result, s[lastEnd:idx[0]])
-		lastEnd = idx[1]
-
-		// Check if we've reached the limit (but need room for final element)
+		// Check if we've reached the limit (the final element is the unsplit
+		// remainder, so for n == 1 nothing is split off at all)
 		if n > 0 && len(result) >= n-1 {
 			// Add the rest as the final element
 			result = append(result, s[lastEnd:])
 			return result
 		}
+
+		// Add substring before match
+		result = append(result, s[lastEnd:idx[0]])
+		lastEnd = idx[1]
 	}
 
 	// Add remaining text after last match
